@@ -1,179 +1,265 @@
-"""C05 - quantity construction computes SI value and dimension, or refuses: structure of the quantity collector (E3)."""
+"""C05 - quantity construction computes SI value and dimension, or refuses: the quantity collector and Quantity.__init__ evaluated
+abstractly on expression trees (E3 by evaluation)."""
 from __future__ import annotations
 
 import ast
+import itertools
+from fractions import Fraction
 
 from ..core import Run, AnalysisError, dotted, norm
 from ..dim import World
-from ..flow import CFG, Fn, node_calls, node_of, conditions_for, stmt_of
-from .collectors import CQ, run_collector_rules, homomorphism, _fn, sum_like_discipline
+from ..alg import T, num, var, op, app
+from ..pyreader import Raised
+from ..gate import GateReader, Dim, Fac, Obj, MagnitudeUse, quantity
+from ..exprtree import Node, Leaves, CollectReader, spec_quantity, Refused, same_value, is_zero_term
 
 EXPLANATION = (
-    "Structural necessary conditions of a compositional collector, decided on collect_quantity.py and Quantity.__init__: "
-    "S1 children coverage - in every handler of the dispatch table each child of the node (args, base, exp) is passed, itself, to "
-    "the recursive collector on every path (a child whose dimension is never asked for cannot influence the result); S2 the "
-    "first-match dispatch table handles Mul, Pow, Add, Abs, Min/Max, Derivative, Function and lists no class before its subclass; "
-    "S3 sum-like handlers (Add, Min/Max) compare with equivalent_dims, consult the any-dimension escape for both operands and "
-    "refuse with an error; Pow and Function demand dimensionless exponent/arguments; S4 unevaluated derivatives and free symbols "
-    "are refused, and Quantity.__init__ tests complex(scale) before both SI.set_quantity_* calls; S6 homomorphism shape - the "
-    "Mul/Add/Pow handlers combine child values with their own operator only and child dimensions with * / ** exponent-value / "
-    "nothing. The value-level statement (scale factor equals the SI value for all expression trees) is not decided.")
+    "collect_quantity.py is EVALUATED (sa/pyreader.py + sa/exprtree.py) on a family of a few hundred expression trees over quantities of "
+    "three dimensions, a zero-valued quantity, a prefix, numbers (exact and floating point), a free symbol and an unevaluated derivative, "
+    "with every node kind the property names (products, powers, sums, absolute value, min/max, elementary functions) at depth one and two. "
+    "For each tree the answer - (scale factor term, dimension) or a refusal - is compared with what the property states: S1 the scale "
+    "factor is the value of the expression on the leaves' SI values (exact normal form) and the dimension the dimensional product of the "
+    "parts (a dimension raised to the exact value of the exponent, also when it is written as a float); S3 the tree is refused exactly "
+    "when terms of a sum or min/max have inequivalent dimensions, an exponent or function argument is dimensional, or a free symbol or "
+    "derivative remains - a zero-valued term never causes a refusal and never fixes the common dimension. Whatever the shape of the code "
+    "(dispatch table or isinstance chain, loops or comprehensions, helpers, guard clauses), only its answers are judged. S4 "
+    "Quantity.__init__ is evaluated on gate objects: the registered scale factor is the collected one itself, the registered dimension the "
+    "explicit or the collected one, nothing is registered for a non-numeric scale, and an explicit dimension that contradicts a "
+    "dimensional expression is refused. K5 (shared with C04) decides the any-dimension predicate. NOT decided: SymPy's own arithmetic on "
+    "the scale factors (automatic evaluation of Mul/Add/Pow/Min/Max on numbers) and expression kinds outside the family.")
 ASSUMPTIONS = ["SymPy's Mul/Add/Pow args, equivalent_dims and is_dimensionless behave as documented",
-               "the value-level arithmetic beyond operator kind is not examined"]
-TRUSTED = ["sympy expression tree API", "python ast"]
+               "SymPy evaluates arithmetic on numeric scale factors correctly"]
+TRUSTED = ["sympy expression tree API", "python ast", "sa/pyreader.py abstract evaluator", "sa/alg.py normal form"]
+
+CQ = "symplyphysics.core.dimensions.collect_quantity"
+QM = "symplyphysics.core.symbols.quantities"
 
 
-def _has_raise_under(fn: ast.FunctionDef, pred) -> bool:
-    scopes = [fn] + [x for x in ast.walk(fn) if isinstance(x, ast.FunctionDef) and x is not fn]
-    for sc in scopes:
-        for r in [x for x in ast.walk(sc) if isinstance(x, ast.Raise)]:
-            conds = conditions_for(sc, r) or []
-            if any(not isinstance(t, str) and pred(t, p) for t, p in conds):
+def float_num(x: int) -> T:
+    """Float(x.0): a number whose is_Float is true and which nsimplify turns into the exact x"""
+    return app("Float", num(x))
+
+
+class QReader(CollectReader):
+    """+ floating point numbers as app("Float", exact value)"""
+
+    def hook_attr(self, base, attr, n):
+        if isinstance(base, T) and attr == "is_Float":
+            return base.op == "app" and base.val == "Float"
+        return super().hook_attr(base, attr, n)
+
+    def hook_call(self, n, env, fns):
+        name = (dotted(n.func) or "").split(".")[-1]
+        if name in ("nsimplify", "Rational", "Integer") and n.args and name not in self.functions:
+            v = self.ev(n.args[0], env, fns)
+            if isinstance(v, T) and v.op == "app" and v.val == "Float":
+                return v.args[0]
+            return v
+        if name == "is_number" and len(n.args) == 1 and name not in self.functions:
+            v = self.ev(n.args[0], env, fns)
+            if isinstance(v, T) and v.op == "app" and v.val == "Float":
                 return True
-    return False
+        return super().hook_call(n, env, fns)
+
+    def hook_binop(self, o, l, r, n):
+        if isinstance(l, Dim) and isinstance(o, ast.Pow) and isinstance(r, T) and r.op == "app" and r.val == "Float":
+            return l if l.dimensionless() else ("dim-float-power", l, repr(r.args[0]))  # Dimension(length**2.0): not equivalent to length**2 (SymPy >= 1.13)
+        return super().hook_binop(o, l, r, n)
 
 
-def _calls(e: ast.AST) -> list[str]:
-    return [dotted(c.func) or "" for c in ast.walk(e) if isinstance(c, ast.Call)]
+def strip_float(t):
+    if isinstance(t, T):
+        if t.op == "app" and t.val == "Float":
+            return t.args[0]
+        return T(t.op, tuple(strip_float(a) for a in t.args), t.val)
+    return t
 
 
-def sum_like_rules(run: Run, mod, fn: ast.FunctionDef, label: str) -> None:
-    run.ob("S3", f"{mod.name}:{label}:any-dimension")
-    anyd = [c for c in ast.walk(fn) if isinstance(c, ast.Call) and dotted(c.func) == "is_any_dimension"]
-    operands = {norm(c.args[0]) for c in anyd if c.args}
-    if len(operands) < 2:
-        run.violate("S3", f"{mod.name}:{label}:any-dimension", mod, fn,
-                    f"the {label} handler consults the any-dimension escape for {sorted(operands) or 'no operand'}: a zero/infinite/NaN term on the other side is refused wrongly")
-    run.ob("S3", f"{mod.name}:{label}:equivalence")
-    if not _has_raise_under(fn, lambda t, p: "dimsys_SI.equivalent_dims" in _calls(t) and ((isinstance(t, ast.UnaryOp) and isinstance(t.op, ast.Not) and p is True) or (not isinstance(t, ast.UnaryOp) and p is False))):
-        run.violate("S3", f"{mod.name}:{label}:equivalence", mod, fn, f"the {label} handler no longer refuses operands whose dimensions fail dimsys_SI.equivalent_dims")
+def tree_family(lv: Leaves) -> list:
+    L, Tm, M = Dim.of(length=1), Dim.of(time=1), Dim.of(mass=1)
+    a, b, c, m_ = lv.quantity("a", L), lv.quantity("b", L), lv.quantity("c", Tm), lv.quantity("m", M)
+    z, k, x = lv.quantity("z", Tm, zero=True), lv.prefix("k"), lv.free("x")
+    half = num(Fraction(1, 2))
+    ratio = Node("Mul", [a, Node("Pow", [b, -1])])  # dimensionless, non-zero
+    out = []
+
+    def add(label, t):
+        out.append((label, t))
+
+    leaves = [("a", a), ("b", b), ("c", c), ("z", z), ("k", k), ("2", 2), ("0", 0), ("a/b", ratio)]
+    for (n1, t1), (n2, t2) in itertools.product(leaves, repeat=2):
+        for cls in ("Mul", "Add", "Min", "Max"):
+            add(f"{cls}({n1}, {n2})", Node(cls, [t1, t2]))
+    for (n1, t1), (n2, t2), (n3, t3) in [(leaves[0], leaves[2], leaves[4]), (leaves[3], leaves[0], leaves[1]), (leaves[0], leaves[3], leaves[2]), (leaves[5], leaves[0], leaves[1]),
+                                         (leaves[2], leaves[0], leaves[1]), (leaves[0], leaves[1], leaves[2]), (leaves[6], leaves[3], leaves[0]), (leaves[3], leaves[6], leaves[3])]:
+        for cls in ("Mul", "Add", "Min", "Max"):
+            add(f"{cls}({n1}, {n2}, {n3})", Node(cls, [t1, t2, t3]))
+    exps = [("2", 2), ("-1", -1), ("1/2", half), ("2.0", float_num(2)), ("c", c), ("z", z), ("a/b", ratio), ("0", 0)]
+    for (nb, tb), (ne, te) in itertools.product([("a", a), ("c", c), ("2", 2), ("z", z), ("a*c", Node("Mul", [a, c])), ("a/b", ratio)], exps):
+        add(f"Pow({nb}, {ne})", Node("Pow", [tb, te]))
+    for nm, t in leaves + [("a+b", Node("Add", [a, b])), ("a+c", Node("Add", [a, c]))]:
+        add(f"Abs({nm})", Node("Abs", [t]))
+        add(f"sin({nm})", Node("Function", [t], name="sin"))
+    add("atan2(a/b, 2)", Node("Function", [ratio, 2], name="atan2"))
+    add("atan2(a, 2)", Node("Function", [a, 2], name="atan2"))
+    add("atan2(2, c)", Node("Function", [2, c], name="atan2"))
+    add("free symbol", x)
+    add("x*a", Node("Mul", [x, a]))
+    add("a + x", Node("Add", [a, x]))
+    add("Derivative", Node("Derivative", [a, [x, 1]]))
+    add("a*Derivative", Node("Mul", [a, Node("Derivative", [a, [x, 1]])]))
+    # depth two: every node kind over compound children
+    compound = [("a*b", Node("Mul", [a, b])), ("a+b", Node("Add", [a, b])), ("a/b", ratio), ("z*a", Node("Mul", [z, a])), ("Abs(c)", Node("Abs", [c])), ("Min(a, b)", Node("Min", [a, b])),
+                ("a**2", Node("Pow", [a, 2])), ("a+c", Node("Add", [a, c])), ("sqrt(a*b)", Node("Pow", [Node("Mul", [a, b]), half])), ("(a*b)**1.0", Node("Pow", [Node("Mul", [a, b]), float_num(1)]))]
+    partners = [("a", a), ("c", c), ("2", 2), ("z", z), ("a*b", Node("Mul", [a, b]))]
+    for (n1, t1), (n2, t2) in itertools.product(compound, partners):
+        for cls in ("Mul", "Add", "Max"):
+            add(f"{cls}({n1}, {n2})", Node(cls, [t1, t2]))
+            add(f"{cls}({n2}, {n1})", Node(cls, [t2, t1]))
+    for n1, t1 in compound:
+        add(f"Pow({n1}, 2)", Node("Pow", [t1, 2]))
+        add(f"Pow(m, {n1})", Node("Pow", [m_, t1]))
+        add(f"Abs({n1})", Node("Abs", [t1]))
+        add(f"exp({n1})", Node("Function", [t1], name="exp"))
+    return out
+
+
+def _collector(run: Run) -> None:
+    m = run.src.need(CQ)
+    lv = Leaves()
+    fam = tree_family(lv)
+    run.require(len(fam) >= 400, "tree family shrank")
+    reported = set()
+    for label, tree in fam:
+        try:
+            want = spec_quantity(tree, lv)
+        except Refused as e:
+            want = e
+        except AnalysisError:
+            continue  # outside what the specification function decides
+        R = QReader(m.tree, "collect_quantity.py", lv)
+        try:
+            got = R.call("collect_quantity_factor_and_dimension", [tree])
+        except Raised as r:
+            got = r
+        rid = "S3" if isinstance(want, Refused) or isinstance(got, Raised) else "S1"
+        run.ob(rid, label)
+        problem = None
+        if isinstance(want, Refused):
+            if not isinstance(got, Raised):
+                problem = f"is accepted (answer {got!r}) although {want}: the property demands a refusal"
+        elif isinstance(got, Raised):
+            problem = f"is refused ({got.exc}) although every sum-like node has terms of one dimension (zero-valued terms aside), exponents and function arguments are dimensionless and no symbol remains"
+        else:
+            wv, wd = want
+            if not (isinstance(got, list) and len(got) == 2):
+                problem = f"answers {got!r}, not a (scale factor, dimension) pair"
+            else:
+                gv, gd = got
+                if not (isinstance(gv, (T, int)) and same_value(strip_float(gv), strip_float(wv))):
+                    problem = f"has scale factor {gv!r}; the value of the expression on the SI values of its leaves is {wv!r}"
+                elif wd is not None and not (isinstance(wd, tuple) and wd[0] == "opaque-dim") and not (gd == wd or (isinstance(gd, Dim) and isinstance(wd, Dim) and gd.exps == wd.exps)):
+                    problem = f"has dimension {gd!r}; the dimensional product of its parts is {wd!r}" + \
+                        (" (a float exponent as written gives a dimension SymPy does not consider equivalent to the exact one)" if isinstance(gd, tuple) and gd[0] == "dim-float-power" else "")
+        if problem:
+            kind = (rid, problem.split(";")[0][:60], getattr(tree, "cls", "leaf"))
+            if kind in reported:
+                continue
+            reported.add(kind)
+            run.violate(rid, f"{CQ}:collect_quantity_factor_and_dimension:{label}", m, m.tree, f"Quantity collector: `{label}` {problem}")
+    run.sample({"collector": CQ, "trees": len(fam)})
+
+
+class InitReader(GateReader):
+
+    def __init__(self, module, where):
+        super().__init__(module, where)
+        self.registered: dict = {}
+        self.super_init = None
+        self.collected = None
+
+    def hook_call(self, n, env, fns):
+        f = dotted(n.func) or ""
+        name = f.split(".")[-1]
+        if name == "collect_quantity_factor_and_dimension" and len(n.args) == 1 and name not in self.functions:
+            self.ev(n.args[0], env, fns)
+            return list(self.collected)
+        if name == "get_dimension_system" and not n.args:
+            return ("dimsys", )
+        if name in ("set_quantity_dimension", "set_quantity_scale_factor") and len(n.args) == 2:
+            who, what = self.ev(n.args[0], env, fns), self.ev(n.args[1], env, fns)
+            self.registered.setdefault(name, []).append((who, what))
+            return None
+        if isinstance(n.func, ast.Attribute) and n.func.attr == "__init__" and isinstance(n.func.value, ast.Call) and dotted(n.func.value.func) == "super":
+            self.super_init = ([self.ev(a, env, fns) for a in n.args], {k.arg: self.ev(k.value, env, fns) for k in n.keywords if k.arg})
+            return None
+        return super().hook_call(n, env, fns)
+
+
+def _quantity_init(run: Run) -> None:
+    from .c11 import _methods_module
+    qm = run.src.need(QM)
+    mm = _methods_module(qm, "Quantity")
+    L, Tm, ANG = Dim.of(length=1), Dim.of(time=1), Dim.of(angle=1)
+    scales = {"finite": Fac("finite", "s"), "zero": Fac("zero", "s"), "symbolic": Fac("symbolic", "s")}
+    cases = []
+    for sk, sc in scales.items():
+        for cd_name, cd in (("dimensionless", Dim()), ("length", L), ("angle", ANG)):
+            for ed_name, ed in (("no explicit dimension", None), ("explicit length", L), ("explicit time", Tm)):
+                cases.append((f"{sk} scale, collected {cd_name}, {ed_name}", sc, cd, ed))
+    for label, sc, cd, ed in cases:
+        run.ob("S4", label)
+        R = InitReader(mm, "quantities.py")
+        R.collected = (sc, cd)
+        me = Obj("Quantity", {"name": "QTY"}, "self")
+        try:
+            R.call("__init__", [me, "EXPR"], {"dimension": ed})
+            raised = None
+        except Raised as r:
+            raised = r
+        except MagnitudeUse as mu:
+            run.violate("S4", f"{QM}:Quantity.__init__:magnitude:{norm(mu.node, 40)}", qm, mu.node, f"Quantity.__init__ ({label}): {mu.what} - construction depends on the magnitude")
+            continue
+        must_refuse = None
+        if sc.kind == "symbolic":
+            must_refuse = "the collected scale is not a number (a free symbol remains)"
+        elif ed is not None and sc.kind != "zero" and not cd.erased().dimensionless() and cd.erased() != ed.erased():
+            must_refuse = f"the expression has dimension {cd!r} of its own and the explicit dimension is {ed!r}: it would be relabelled"
+        problem = None
+        regs = R.registered
+        if must_refuse:
+            if raised is None:
+                problem = f"is accepted although {must_refuse}"
+            elif regs:
+                problem = f"registers {sorted(regs)} before refusing"
+        elif raised is not None:
+            problem = f"is refused ({raised.exc}) although the scale is numeric and the dimensions agree"
+        else:
+            want_dim = ed if ed is not None else cd
+            sd, ss = regs.get("set_quantity_dimension", []), regs.get("set_quantity_scale_factor", [])
+            if len(sd) != 1 or len(ss) != 1:
+                problem = f"registers dimension {len(sd)} time(s) and scale factor {len(ss)} time(s) with the unit system"
+            elif sd[0][0] is not me or ss[0][0] is not me:
+                problem = "registers something else than the quantity under construction"
+            elif ss[0][1] is not sc:
+                problem = f"registers the scale factor {ss[0][1]!r}, which is not the collected factor of the expression unchanged"
+            elif not (isinstance(sd[0][1], Dim) and sd[0][1] == want_dim):
+                problem = f"registers dimension {sd[0][1]!r}; the {'explicit' if ed is not None else 'collected'} dimension is {want_dim!r}"
+            elif R.super_init is None or not any(isinstance(x, Dim) and x == want_dim for x in list(R.super_init[0]) + list(R.super_init[1].values())):
+                problem = f"does not hand the dimension {want_dim!r} to the DimensionSymbol initialiser"
+        if problem:
+            run.violate("S4", f"{QM}:Quantity.__init__:{label}", qm, qm.tree, f"Quantity.__init__, {label}: {problem}")
+    run.sample({"constructor": QM + ":Quantity.__init__", "cases": len(cases)})
 
 
 def check(run: Run) -> None:
-    run.rule("S1", "every child of the node is passed, itself, to the recursive collector on every path of its handler")
-    run.rule("S2", "dispatch table complete; no class listed before its subclass; first-match dispatch loop")
-    run.rule("S3", "sum-like handlers: equivalent_dims refusal + any-dimension escape for both operands; Pow/Function demand dimensionless exponent/arguments")
-    run.rule("S4", "unevaluated derivatives and non-numbers are refused; Quantity.__init__ tests complex(scale) before registering the quantity")
-    run.rule("S6", "Mul/Add/Pow handlers combine child values with their own operator and child dimensions with * / ** / nothing")
+    run.rule("S1", "the collector's answer for a tree is (value of the expression on the leaves' SI values, dimensional product of the parts), exponents taken exactly")
+    run.rule("S3", "a tree is refused exactly when a sum/min/max has terms of inequivalent dimensions (zero-valued terms aside), an exponent or function argument is dimensional, "
+             "or a free symbol / unevaluated derivative remains")
+    run.rule("S4", "Quantity.__init__ registers the collected scale factor itself and the explicit-or-collected dimension, nothing for a non-numeric scale, and refuses an explicit "
+             "dimension that contradicts a dimensional expression")
     w = World(run.src)
     from .c04 import _k5
-    _k5(run, w)  # the any-dimension predicate itself (shared with C04): exactly {0, +oo, -oo, NaN}, magnitude independent
-    info = run_collector_rules(run, w, CQ, None)
-    mod, h = info["mod"], info["handlers"]
-    if any(k not in h for k in ("Mul", "Add", "Pow", "Derivative", "SymFunction", "SymQuantity", "Prefix")):
-        return  # a missing dispatch entry is reported by S2; the handler-specific rules have nothing to look at
-    # S3
-    sum_like_discipline(run, mod, h["Add"], "Add", "collect_quantity_factor_and_dimension")
-    mm = h.get("MinMaxBase") or h.get("Min")
-    if mm is not None:  # absence is reported by S2
-        sum_like_discipline(run, mod, mm, "Min/Max", "collect_quantity_factor_and_dimension")
-    for cls, what in (("Pow", "exponent"), ("SymFunction", "argument")):
-        if cls not in h:
-            continue
-        fn = h[cls]
-        run.ob("S3", f"{mod.name}:{cls}:dimensionless-{what}")
-        raises = [x for x in ast.walk(fn) if isinstance(x, ast.Raise)]
-        tests = [t for t in ast.walk(fn) if isinstance(t, ast.If) and "dimsys_SI.is_dimensionless" in _calls(t.test) and "is_any_dimension" in _calls(t.test)]
-        if not raises or not tests:
-            run.violate("S3", f"{mod.name}:{cls}:dimensionless-{what}", mod, fn, f"the {cls} handler no longer refuses a dimensional {what} (test on is_dimensionless/is_any_dimension + raise)")
-        else:
-            # the raise must be reachable exactly when the test fails: every normal return is under the test (True) or the raise under (False)
-            cfg = CFG(fn)
-            for r in cfg.returns():
-                conds = conditions_for(fn, r.ast) or []
-                def established(t, p) -> bool:
-                    """the path condition (t, p) says that the admission test holds: `if test:` taken, or `if not test: raise` passed"""
-                    if isinstance(t, str) or t is not tests[0].test:
-                        return False
-                    negated = isinstance(t, ast.UnaryOp) and isinstance(t.op, ast.Not)
-                    return (p is True and not negated) or (p is False and negated)
-                if cls == "Pow" and not any(established(t, p) for t, p in conds):
-                    run.violate("S3", f"{mod.name}:{cls}:unguarded-return", mod, r.ast, f"the {cls} handler returns a result without having tested that the {what} is dimensionless")
-    # S4
-    ud = h["Derivative"]
-    run.ob("S4", "unevaluated-derivative")
-    cfg = CFG(ud)
-    if cfg.normal_exits():
-        run.violate("S4", f"{mod.name}:{ud.name}:returns", mod, ud, "the Derivative handler of the quantity collector can return: an unevaluated derivative is no longer refused")
-    dflt = _fn(mod, "_collect_default")
-    run.ob("S4", "default-refuses-non-numbers")
-    if not _has_raise_under(dflt, lambda t, p: "is_number" in _calls(t) and ((isinstance(t, ast.UnaryOp) and p is True) or (not isinstance(t, ast.UnaryOp) and p is False))):
-        run.violate("S4", f"{mod.name}:_collect_default:refusal", mod, dflt, "_collect_default no longer raises for a non-number (free symbol)")
-    ent = _fn(mod, "collect_quantity_factor_and_dimension")
-    run.ob("S4", "default-is-fallback")
-    ecfg = CFG(ent)
-    last = [r for r in ecfg.returns() if not r.lexical_tests]
-    if not last or not all(isinstance(r.ast.value, ast.Call) and dotted(r.ast.value.func) == "_collect_default" for r in last):
-        run.violate("S4", f"{mod.name}:entry:fallback", mod, ent, "nodes without a handler no longer fall through to _collect_default")
-    q = Fn(w, "symplyphysics.core.symbols.quantities", "Quantity.__init__")
-    sets = [(n, c) for n in q.cfg.stmt_nodes() for c in node_calls(n) if dotted(c.func) in ("SI.set_quantity_dimension", "SI.set_quantity_scale_factor")]
-    run.require(len(sets) == 2, "Quantity.__init__ no longer registers dimension and scale factor with SI")
-    cplx = [n for n in q.cfg.stmt_nodes() for c in node_calls(n) if dotted(c.func) == "complex"]
-    for n, c in sets:
-        run.ob("S4", f"Quantity.__init__:{dotted(c.func)}")
-        if not q.cfg.dominated_by(n, lambda y: y in cplx):
-            run.violate("S4", f"{q.qual}:{dotted(c.func)}:unchecked", q.mod, c, "the quantity is registered without the complex(scale) numeric check having passed")
-    tr = [x for x in ast.walk(q.fn) if isinstance(x, ast.Try)]
-    run.ob("S4", "Quantity.__init__:refusal")
-    if not any(any(isinstance(y, ast.Raise) for hd in t.handlers for y in ast.walk(hd)) and any(dotted(c.func) == "complex" for s in t.body for c in ast.walk(s) if isinstance(c, ast.Call)) for t in tr):
-        run.violate("S4", f"{q.qual}:refusal", q.mod, q.fn, "a failing complex(scale) no longer leads to a raise")
-    for n, c in sets:
-        if dotted(c.func) == "SI.set_quantity_scale_factor" and len(c.args) == 2:
-            run.ob("S4", "Quantity.__init__:scale-is-collected")
-            sl = q.slice(n, c.args[1])
-            touched = sorted(sl.calls - {"collect_quantity_factor_and_dimension", "sympify", "S"})
-            if "collect_quantity_factor_and_dimension" not in sl.calls or "expr" not in sl.params or touched \
-                    or any(isinstance(x, (ast.BinOp, ast.UnaryOp)) and not isinstance(getattr(x, "op", None), ast.Not) for e in sl.exprs for x in ast.walk(e)):
-                run.violate("S4", f"{q.qual}:scale", q.mod, c,
-                            "the registered scale factor is not the collected factor of `expr` unchanged"
-                            + (f": it passes through {touched} on some path (rounding, dropping a part or re-scaling changes the SI value the quantity stands for)" if touched else ""))
-        if dotted(c.func) == "SI.set_quantity_dimension" and len(c.args) == 2:
-            run.ob("S4", "Quantity.__init__:dimension-is-collected")
-            sl = q.slice(n, c.args[1])
-            if "collect_quantity_factor_and_dimension" not in sl.calls or "dimension" not in sl.params:
-                run.violate("S4", f"{q.qual}:dimension", q.mod, c, "the registered dimension is neither the explicit `dimension` nor the collected one")
-    # an explicit dimension= does not relabel an expression that has a dimension of its own: the collected dimension is compared with it, and a mismatch raises
-    run.ob("S4", "Quantity.__init__:explicit-dimension-checked")
-    collected_names = set()
-    for n_ in q.cfg.stmt_nodes():
-        a_ = n_.ast
-        if isinstance(a_, ast.Assign) and isinstance(a_.value, ast.Call) and dotted(a_.value.func) == "collect_quantity_factor_and_dimension" \
-                and isinstance(a_.targets[0], ast.Tuple) and len(a_.targets[0].elts) == 2 and isinstance(a_.targets[0].elts[1], ast.Name):
-            collected_names.add(a_.targets[0].elts[1].id)
-    relabel_guard = False
-    for t_ in [n_ for n_ in q.cfg.stmt_nodes() if n_.kind == "test" and isinstance(n_.ast, ast.If)]:
-        if not any(isinstance(x, ast.Raise) for st_ in t_.ast.body for x in ast.walk(st_)):
-            continue
-        sl_ = q.slice(t_, t_.ast.test, control=True)
-        names_ = {x.id for e_ in sl_.exprs for x in ast.walk(e_) if isinstance(x, ast.Name)} | sl_.params
-        if any(c_.endswith("equivalent_dims") for c_ in sl_.calls) and "dimension" in names_ and (collected_names & names_ or "collect_quantity_factor_and_dimension" in sl_.calls):
-            if all(q.cfg.dominated_by(n_, lambda y, t_=t_: y is t_) or any(tt is t_ for tt, _ in t_.lexical_tests) for n_, c_ in sets if dotted(c_.func) == "SI.set_quantity_dimension"):
-                relabel_guard = True
-            # the guard may itself sit under `if dimension is not None`: then dominance is by the outer test; accept when every setter comes after it in the function
-            elif all(getattr(n_.ast, "lineno", 0) > getattr(t_.ast, "lineno", 0) for n_, c_ in sets):
-                relabel_guard = True
-    if not relabel_guard:
-        run.violate("S4", f"{q.qual}:explicit-dimension-relabels", q.mod, q.fn,
-                    "Quantity(expr, dimension=d) registers d without comparing it with the dimension collected from expr: Quantity(0.44 * units.second, dimension=units.length) "
-                    "is a length - a dimensional expression is silently relabelled instead of refused")
-    # S6
-    homomorphism(run, mod, "Mul", h["Mul"], {"Mult"}, {"Mult"})
-    homomorphism(run, mod, "Add", h["Add"], {"Add"}, set())
-    homomorphism(run, mod, "Pow", h["Pow"], {"Pow"}, {"Pow"})
-    # Pow: the dimension is raised to the exponent's *value*
-    for cfg2, r, fe, de in __import__("sa.rules.collectors", fromlist=["returned_pairs"]).returned_pairs(h["Pow"]):
-        run.ob("S6", "Pow:dimension-exponent")
-        if not (isinstance(fe, ast.BinOp) and isinstance(de, ast.BinOp) and isinstance(fe.op, ast.Pow) and isinstance(de.op, ast.Pow)
-                and __import__("sa.rules.collectors", fromlist=["same_exponent"]).same_exponent(cfg2, r, fe.right, de.right)):
-            run.violate("S6", f"{mod.name}:_collect_pow:exponent", mod, r.ast, f"Pow handler returns ({norm(fe, 40)}, {norm(de, 40)}): value and dimension are not raised to the same exponent value")
-        elif not any(c_.split(".")[-1] in ("nsimplify", "Rational") for c_ in cfg2.slice(r, [de.right]).calls):
-            run.violate("S6", f"{mod.name}:_collect_pow:float-exponent", mod, r.ast,
-                        "the dimension is raised to the exponent as written: a float exponent (area**0.5, meter**2.0) gives Dimension(length**1.0), which SymPy (Float(1.0) != 1) does "
-                        "not consider equivalent to length - the verdict depends on how the number is written; the dimension's exponent must be made exact (nsimplify / Rational)")
-    # leaves
-    for cls, attr in (("SymQuantity", "dimension"), ("Prefix", None)):
-        fn = h[cls]
-        run.ob("S6", f"leaf:{cls}")
-        for cfg2, r, fe, de in __import__("sa.rules.collectors", fromlist=["returned_pairs"]).returned_pairs(fn):
-            if dotted(fe) != f"{fn.args.args[0].arg}.scale_factor" or (attr and dotted(de) != f"{fn.args.args[0].arg}.{attr}") or (attr is None and dotted(de) != "dimensionless"):
-                run.violate("S6", f"{mod.name}:{fn.name}:leaf", mod, r.ast, f"the {cls} leaf returns ({norm(fe, 40)}, {norm(de, 40)}) instead of (scale factor, {'its dimension' if attr else 'dimensionless'})")
+    _k5(run, w)  # the any-dimension predicate itself (shared with C04): exactly {0, +oo, -oo, zoo, NaN}, magnitude independent
+    _collector(run)
+    _quantity_init(run)
